@@ -13,7 +13,7 @@ from typing import Any, Callable, Dict, List, Optional, Tuple
 
 from . import terms as T
 from .progdb import AnalysisError, Module, ProgramDB, walk_no_nested
-from .values import (Columns, ClassRef, Each, EnumRef, ExtMod, Frame, FuncRef, GenCall, GroupBy, GuardedSeq, Obj, PyTuple, ReMatch, Ser, to_term)
+from .values import (Columns, ClassRef, Each, EnumRef, ExtMod, Frame, FuncRef, GenCall, GroupBy, GuardedSeq, ListIter, Obj, PyTuple, ReMatch, Ser, to_term)
 
 EXT_MODULES = {"pd": "pd", "pandas": "pd", "np": "np", "numpy": "np", "math": "math", "nx": "nx", "networkx": "nx",
                "re": "re", "os": "os", "json": "json", "gzip": "gzip", "time": "time", "sys": "sys", "logging": "logging",
@@ -488,6 +488,17 @@ class Interp:
                     self.log("except-path", st, what="KeyError (column absent)")
                     self.exec_block(st.handlers[0].body)
                 return
+        # `try: v = next(it) ... except StopIteration: <leave>` over an iterator of known elements is deterministic: the handler runs exactly when the iterator is exhausted
+        if st.handlers and all(h.type is not None and ast.unparse(h.type) == "StopIteration" for h in st.handlers) and not st.finalbody:
+            try:
+                self.exec_block(st.body)
+            except _Raise as r_:
+                if getattr(r_, "concrete", False) and r_.what == "StopIteration":
+                    self.exec_block(st.handlers[0].body)
+                    return
+                raise
+            self.exec_block(st.orelse)
+            return
         if interesting and not self.decide(("noexc", getattr(st, "lineno", 0)), st):
             h = interesting[0]
             self.log("except-path", st, what=ast.unparse(h.type) if h.type is not None else "bare")
@@ -500,7 +511,8 @@ class Interp:
     def st_While(self, st):
         # a loop whose condition is a CONSTANT every time it is tested (plain Python bookkeeping over concrete values, e.g. popping a stack of characters) is run as written,
         # outside symbolic loops only; anything else is executed once with unknown state, as before
-        if self.run.loop_depth == 0 and not any(isinstance(n, ast.Try) for n in ast.walk(st)) and not st.orelse:
+        stop_only = lambda n: all(h.type is not None and ast.unparse(h.type) == "StopIteration" for h in n.handlers) and not n.finalbody
+        if self.run.loop_depth == 0 and not any(isinstance(n, ast.Try) and not stop_only(n) for n in ast.walk(st)) and not st.orelse:
             first = self.truth(self.eval(st.test))
             if T.is_const(first):
                 n_it, c = 0, first
@@ -606,6 +618,8 @@ class Interp:
             self.exec_block(st.orelse)
             return
         seq = self._concrete_seq(it)
+        if isinstance(it, ListIter) and seq is not None:
+            it.pos = len(it.items)          # the loop consumes the iterator
         if seq is not None and (len(seq) <= 16 or (isinstance(it, str) and self.run.loop_depth == 0)):
             if isinstance(it, (set, frozenset)) and len(it) > 1 and any(isinstance(x, str) for x in it):
                 self.log("unordered-walk", st, size=len(it))          # a set of strings is walked in hash order: the order used here (sorted) is not the program's
@@ -641,6 +655,8 @@ class Interp:
             self.log("loop-exit", st)
 
     def _concrete_seq(self, it: Any) -> Optional[list]:
+        if isinstance(it, ListIter):
+            return list(it.items[it.pos:])          # what is left of an iterator over known elements
         if isinstance(it, list) and not any(isinstance(x, Each) for x in it):
             return list(it)
         if isinstance(it, str) and len(it) <= 400:
